@@ -93,6 +93,24 @@ def time_env(tm_now):
         x, y = a.f[0], b.f[0]
         return {'gt': x > y, 'ge': x >= y, 'lt': x < y, 'le': x <= y, 'eq': x == y, 'ne': x != y}[k]
 
+    def dur_minmax(ex, st, callee, args, fn):
+        a = ex.deref(st, args[0]) if isinstance(args[0], Ref) else args[0]
+        b = ex.deref(st, args[1]) if isinstance(args[1], Ref) else args[1]
+        k = callee.rsplit('::', 1)[1]
+        x, y = a.f[0], b.f[0]
+        if k == 'max':
+            return Struct([z3.If(x >= y, x, y)])
+        if k == 'min':
+            return Struct([z3.If(x <= y, x, y)])
+        if k == 'saturating_sub':
+            return Struct([z3.If(x >= y, x - y, z3.IntVal(0))])
+        if k == 'saturating_add':
+            return Struct([z3.If(x + y <= DUR_MAX_NS, x + y, z3.IntVal(DUR_MAX_NS))])
+        if k == 'clamp':
+            c = ex.deref(st, args[2]) if isinstance(args[2], Ref) else args[2]
+            return Struct([z3.If(x < y, y, z3.If(x > c.f[0], c.f[0], x))])
+        raise EngineError('Duration::' + k)
+
     def chrony_float(ex, st, callee, args, fn):
         v = args[0]
         if not isinstance(v, FLin):
@@ -101,7 +119,8 @@ def time_env(tm_now):
     return [(r'^<ChronyFloat as Into<f64>>::into$|^<f64 as From<ChronyFloat>>::from$', chrony_float),
             (r'(^|::)SystemTime::elapsed$', elapsed), (r'(^|::)Duration::from_secs$', from_secs), (r'(^|::)Duration::try_from_secs_f64$', try_from_secs_f64), (r'(^|::)Duration::from_millis$', from_millis),
             (r'(^|::)Duration::(as_nanos|as_micros|as_millis|as_secs|subsec_nanos|subsec_micros|subsec_millis|is_zero)$', dur_get),
-            (r'^<Duration as PartialOrd>::(gt|ge|lt|le)$|^<Duration as PartialEq>::(eq|ne)$', dur_cmp)]
+            (r'^<Duration as PartialOrd>::(gt|ge|lt|le)$|^<Duration as PartialEq>::(eq|ne)$', dur_cmp),
+            (r'^<Duration as Ord>::(max|min|clamp)$|(^|::)Duration::(saturating_sub|saturating_add)$', dur_minmax)]
 
 
 DUR_MAX_NS = (2 ** 64 - 1) * NS + 999_999_999
@@ -225,6 +244,13 @@ def check_c07(tier, seed):
         ck.cov['functions_encoded'] = list(ck.cov.get('functions_encoded', [])) + ['get_phc_error_bound_from_path over a byte-level file model (symbolic decimal digits)']
     except EngineError as e:
         ck.inconclusive.append('PHC error-bound file reader: %s' % e)
+    # PHC term, hand-over: the value read at a poll is the PHC term of that poll's message (also across polls: no stale value)
+    try:
+        from .daemon_poller import poller_table
+        poller_table(ck, prog, mir_wall, tier, seed, only_phc=True)
+        ck.cov['functions_encoded'] = list(ck.cov.get('functions_encoded', [])) + ['run_clock_error_bound_poller (one iteration over arbitrary loop-carried state): PHC term of the messages']
+    except EngineError as e:
+        ck.inconclusive.append('PHC term of the poller messages: %s' % e)
     ck.cov['counterexamples_replayed'], ck.cov['counterexamples_confirmed'] = stats
     tv = validate(ck, prog, tm, outs, ex, seed, 40 if tier == 'quick' else 300)
     ck.cov['traces_validated_against_impl'] = tv
